@@ -130,7 +130,11 @@ class Tr(object):
         f = c.func
         fs = u(f)
         plain = not c.keywords and not any(isinstance(a, ast.Starred) for a in c.args)
-        if fs == "self._cleanup" and plain and not c.args:
+        if fs == "self._cleanup" and not c.args and not any(isinstance(a, ast.Starred) for a in c.args) \
+                and [(k.arg, u(k.value)) for k in c.keywords] in ([], [("_anyway", "False")]):
+            # `_cleanup(_anyway=False)` differs from `_cleanup()` only on a side whose own close() is under way (flag already set): a
+            # served side of this model is never in that state (after a cleanup nothing more is served), so both are XCleanup here;
+            # the difference is C11's subject (model/Lifecycle.v: handle_close_guarded)
             return ("XCleanup",)
         if fs == "self._access_attr":
             if not plain or len(c.args) != 6:
